@@ -242,8 +242,8 @@ example : Generated.ViewSites.viewBranches.map (fun b => (b.file, b.fn)) =
 
 /-- `inventoryOk` is not vacuous: the shape of the seeded change C11-w5-01 (a predicate in src/paint.rs that reads the
 switch and looks at the line buffers and the buffer size) is rejected -/
-example : ViewSites.inventoryOk [] [{ file := "paint.rs", fn := "line_buffers_are_full", viewReads := 1,
-    eff := { buffer := false, writer := false, emit := false, lineBuffers := true, bufferSize := true, returns := false } }] = false := by
+example : ViewSites.inventoryOk [] [Generated.ViewSites.FnFact.mk "paint.rs" "line_buffers_are_full" 1
+    (Generated.ViewSites.Eff.mk false false false true true false)] = false := by
   decide
 
 end C11
